@@ -20,7 +20,7 @@ namespace Parmcb.C04
 open Parmcb
 
 theorem c04_signed_mpi_end_to_end (g : Graph) (hs : g.simpleB = true) (hp : g.positiveB = true)
-    (order : List Nat) (ho : order.Perm (List.range g.n)) (pick : List Nat → Nat) (hpick : PickOK pick)
+    (order : List Nat) (ho : order.Perm (List.range g.n)) (pick : Nat → PickFam) (hpick : ∀ k i L, PickOK (pick k i L))
     (P : Nat) (hP : 1 ≤ P) (perm : List Nat) (hperm : perm.Perm (List.range (createIndex g order).dim))
     (scheds : Nat → List Nat → Nat → Sched)
     (hcov : ∀ k S, SlicesCovered (if S.length < g.n then S.length else g.n) P (scheds k S))
